@@ -44,6 +44,14 @@ theorem validate_touches_only_sites (c : Cfg) (t : Topo) :
       (validate c t).2.svcs.map eraseSite = t.svcs.map eraseSite :=
   validate_frame c t
 
+/-- Interfaces are counted by identity, not by name: relabelling the interfaces of the services with any
+function `f` - also one that makes the names of two interfaces of one service coincide, as the derived
+service-port names `<node>-<interface>` can - changes neither the verdict nor the recorded sites.
+(`SpecOK` never mentions a name: `nifs`, the counts and the site set are taken over the list `s.ifs`.) -/
+theorem validate_counts_by_identity (c : Cfg) (f : String → String) (t : Topo) :
+    validate c (t.rename f) = ((validate c t).1, (validate c t).2.rename f) :=
+  validate_rename c f t
+
 /-- a declared site is kept -/
 theorem recordedSite_declared (row : SvcRow) (s : Svc) (h : truthy s.site = true) :
     recordedSite row s = s.site := by
@@ -309,9 +317,9 @@ theorem guardrail_sound :
 
 /-! ### non-vacuity -/
 
-def exSts : Topo := { exp := true, nodes := [⟨"VM", ["site"]⟩, ⟨"VM", ["site"]⟩], svcs := [⟨"L2STS", none, [], none, [.port (some [⟨"DedicatedPort", some "RENC"⟩]), .port (some [⟨"SharedPort", some "UKY"⟩])]⟩] }
-def exBridge (site : Option String) : Topo := { exp := true, nodes := [], svcs := [⟨"L2Bridge", site, [], none, [.port (some [⟨"SharedPort", some "RENC"⟩])]⟩] }
-def exThree : Topo := { exp := true, nodes := [], svcs := [⟨"L2STS", none, [], none, [.port (some [⟨"SharedPort", some "A"⟩]), .port (some [⟨"SharedPort", some "B"⟩]), .port (some [⟨"SharedPort", some "C"⟩])]⟩] }
+def exSts : Topo := { exp := true, nodes := [⟨"VM", ["site"]⟩, ⟨"VM", ["site"]⟩], svcs := [⟨"L2STS", none, [], none, [.port "n0-p0" (some [⟨"DedicatedPort", some "RENC"⟩]), .port "n1-p0" (some [⟨"SharedPort", some "UKY"⟩])]⟩] }
+def exBridge (site : Option String) : Topo := { exp := true, nodes := [], svcs := [⟨"L2Bridge", site, [], none, [.port "n0-p0" (some [⟨"SharedPort", some "RENC"⟩])]⟩] }
+def exThree : Topo := { exp := true, nodes := [], svcs := [⟨"L2STS", none, [], none, [.port "n1-x-p0" (some [⟨"SharedPort", some "A"⟩]), .port "n1-x-p0" (some [⟨"SharedPort", some "B"⟩]), .port "n1-x-p0" (some [⟨"SharedPort", some "C"⟩])]⟩] }
 /-- a two-site L2STS between two NIC ports validates … -/
 example : (validate genCfg exSts).1 = .ok () := by decide
 /-- … an L2Bridge gets its site recorded … -/
@@ -319,6 +327,13 @@ example : ((validate genCfg (exBridge none)).2.svcs.map (·.site)) = [some "RENC
 /-- … a declared site that disagrees is refused, and so is a third site. -/
 example : (validate genCfg (exBridge (some "UKY"))).1 = .error .topology := by decide
 example : (validate genCfg exThree).1 = .error .topology := by decide
+/-- three interfaces, two of them with the same name (`n1` + `nic-aa-p1`, `n1-nic` + `aa-p1`): the name-keyed view has two
+entries, but an L2PTP with them is over its limit of 2 and a two-interface L2STS with like-named ports is valid -/
+def exPtpNames : Topo := { exp := true, nodes := [], svcs := [⟨"L2PTP", none, [], none, [.port "n1-nic-aa-p1" (some [⟨"DedicatedPort", some "RENC"⟩]), .port "n1-nic-aa-p1" (some [⟨"DedicatedPort", some "UKY"⟩]), .port "n3-nic1-p1" (some [⟨"DedicatedPort", some "UKY"⟩])]⟩] }
+def exStsNames : Topo := { exp := true, nodes := [], svcs := [⟨"L2STS", none, [], none, [.port "n1-nic-aa-p1" (some [⟨"DedicatedPort", some "RENC"⟩]), .port "n1-nic-aa-p1" (some [⟨"DedicatedPort", some "UKY"⟩])]⟩] }
+example : (exPtpNames.svcs.map (·.interfaceNames.length)) = [2] := by decide
+example : (validate genCfg exPtpNames).1 = .error .topology := by decide
+example : (validate genCfg exStsNames).1 = .ok () := by decide
 /-- the guards of `validate_iff_specFull_partial` are satisfiable -/
 example : (∀ n ∈ [(⟨"VM", ["site", "image_ref"]⟩ : Node)], n.ty ∉ genCfg.nodesViewExcludes) ∧
     (∀ n ∈ [(⟨"VM", ["site", "image_ref"]⟩ : Node)], ∀ p ∈ n.props, p ∈ genCfg.nodeGetters ∧ p ∈ genCfg.nodeShallow) := by decide
